@@ -36,7 +36,7 @@ def _own_write_only(cls, recv) -> bool:
     if not (isinstance(b, ast.Attribute) and isinstance(b.value, ast.Name)):
         return False
     fld = b.attr
-    init = cls.own_method("__init__")
+    init = cls.methods.get("__init__")
     if init is None:
         return False
     s0 = init.args.args[0].arg
@@ -59,6 +59,37 @@ def _own_write_only(cls, recv) -> bool:
                 write_nodes |= {id(x) for x in ast.walk(n.value.func.value)}
         for n in ast.walk(m):
             if isinstance(n, ast.Attribute) and n.attr == fld and isinstance(n.value, ast.Name) and n.value.id == s and id(n) not in write_nodes and not accessor:
+                return False
+    return True
+
+
+def _diagnostic_counter(model, rel, cls, fld) -> bool:
+    """`self.<fld>` is a counter for diagnostics: bound in __init__ to a number, and every read of it in the class is its own
+    update (`self.f += 1`), an argument of a call on a `logging` logger of this module, or the body of a pure accessor."""
+    init = cls.methods.get("__init__")
+    if init is None:
+        return False
+    s0 = init.args.args[0].arg
+    if not any(isinstance(n, ast.Assign) and isinstance(n.targets[0], ast.Attribute) and n.targets[0].attr == fld and isinstance(n.targets[0].value, ast.Name) and n.targets[0].value.id == s0
+               and isinstance(n.value, ast.Constant) and isinstance(n.value.value, (int, float)) for n in ast.walk(init)):
+        return False
+    fi = model.files[rel]
+    loggers = {t.id for st in fi.tree.body if isinstance(st, ast.Assign) and isinstance(st.value, ast.Call) and dotted(st.value.func) in ("logging.getLogger", "getLogger")
+               for t in st.targets if isinstance(t, ast.Name)}
+    for m in cls.methods.values():
+        if not m.args.args or m.name == "__init__":
+            continue
+        s = m.args.args[0].arg
+        body = [x for x in m.body if not (isinstance(x, ast.Expr) and isinstance(x.value, ast.Constant))]
+        accessor = len(body) == 1 and isinstance(body[0], ast.Return)
+        allowed = set()
+        for n in ast.walk(m):
+            if isinstance(n, ast.AugAssign) and isinstance(n.target, ast.Attribute) and n.target.attr == fld and isinstance(n.value, ast.Constant):
+                allowed |= {id(x) for x in ast.walk(n.target)}
+            if isinstance(n, ast.Expr) and isinstance(n.value, ast.Call) and isinstance(n.value.func, ast.Attribute) and isinstance(n.value.func.value, ast.Name) and n.value.func.value.id in loggers:
+                allowed |= {id(x) for a in n.value.args for x in ast.walk(a)}
+        for n in ast.walk(m):
+            if isinstance(n, ast.Attribute) and n.attr == fld and isinstance(n.value, ast.Name) and n.value.id == s and id(n) not in allowed and not accessor:
                 return False
     return True
 
@@ -114,6 +145,8 @@ def run(model, col, tier):
     nmut = 0
     for cls in (ec, vmc):
         for m in cls.methods.values():
+            if m.name in getattr(cls, "inlined_helpers", ()):
+                continue  # read in place inside __Execute (vmmodel): its parameters are the arm's own values there
             selfn = m.args.args[0].arg
             params = [a.arg for a in m.args.args[1:]]
             # a name is a *value of the activation* (never a program object) if every binding of it in the method is a freshly built
@@ -188,6 +221,8 @@ def run(model, col, tier):
                         if isinstance(t, ast.Attribute):
                             r = root_name(t)
                             good = r == selfn and m.name == "__init__"
+                            if not good and r == selfn and isinstance(n, ast.AugAssign) and isinstance(t.value, ast.Name) and _diagnostic_counter(model, VM, cls, t.attr):
+                                good = True  # a counter that only feeds logger.debug(..): not state of the computation
                             col.check(good, "R15.1", f"{VM}::{cls.name}.{m.name} sets attribute {unparse(t)}",
                                       "attributes are only set on self in __init__",
                                       f"`{unparse(n)[:70]}` stores an attribute outside __init__ / on a foreign object: state that outlives the activation or changes the shared program", VM, n)
@@ -238,6 +273,8 @@ def run(model, col, tier):
     # ---------------- R15.3 ------------------------------------------------------
     writers = []
     for m in ec.methods.values():
+        if m.name in getattr(ec, "inlined_helpers", ()):
+            continue
         for n in ast.walk(m):
             if isinstance(n, ast.Assign):
                 for tg in n.targets:
